@@ -228,6 +228,39 @@ def check_one(fa, res, original, variant, label, want, seen):
         res.add(Violation("c13.fixpoint", "not-a-fixed-point", f"canon(canon(S)) = {again!r} != canon(S) = {got!r}", info))
 
 
+def embed_check(fa, res, raw, seen):
+    if not (isinstance(raw, dict) and raw.get("type") in ("record", "enum", "fixed")) or "namespace" in raw or "." in raw["name"]:
+        return
+    try:
+        inner_parsed = fa.parse_schema(copy.deepcopy(raw))
+    except Exception:
+        return
+    inner_names = set(names.resolve(copy.deepcopy(raw))[1])
+    if inner_names & {"Holder", "Holder2"}:
+        return
+    for outer_ns in ("", "x.y"):
+        # a schema dict is a schema dict: embedded in another namespace its bare names are resolved there,
+        # whether or not it has been through parse_schema before
+        outer_raw = {"type": "record", "name": "Holder", "fields": [{"name": "h", "type": copy.deepcopy(raw)}, {"name": "again", "type": ["null", raw["name"]]}]}
+        outer_mixed = {"type": "record", "name": "Holder", "fields": [{"name": "h", "type": inner_parsed}, {"name": "again", "type": ["null", raw["name"]]}]}
+        if outer_ns:
+            outer_raw["namespace"] = outer_ns
+            outer_mixed["namespace"] = outer_ns
+        try:
+            want = canon.canonical(names.resolve(outer_raw))
+        except Exception:
+            continue
+        res.evals += 1
+        seen.add(("embed", outer_ns, json.dumps(raw, sort_keys=True)))
+        info = {"schema": outer_raw, "variant": None, "rewrite": "embedded-parsed-type:" + (outer_ns or "<null>")}
+        try:
+            got = fa.schema.to_parsing_canonical_form(outer_mixed)
+        except Exception as e:
+            got = f"raised {type(e).__name__}: {e}"
+        if got != want:
+            res.add(Violation("c13.canon", f"canonical-form-differs:embedded-parsed-type", f"a schema embedding an already parsed {raw['name']} canonicalises to {got!r}, the same schema spelled raw gives {want!r}", info))
+
+
 BROKEN = [
     # calls that fail part-way through: whatever they leave behind must not leak into the next call
     {"type": "record", "name": "Brk", "fields": [{"name": "a", "type": "int"}, {"name": "e", "type": {"type": "enum", "name": "NoSyms"}}],
@@ -299,6 +332,8 @@ def run_unit(i, tier):
                 res.add(Violation("c13.encoding", "canonical-schema-decodes-differently", f"{short(a)} vs {short(b)} | {short(raw, 300)}", info))
     except Exception as e:
         res.add(Violation("c13.encoding", f"canonical-text-unusable:{type(e).__name__}", f"canonical text of {short(raw, 300)} cannot be used as a schema: {type(e).__name__}: {e}", {"schema": raw, "rewrite": "encoding-equivalence"}))
+    # an already parsed named type embedded in an unparsed schema (its names were resolved where it was parsed)
+    embed_check(fa, res, raw, seen)
     res.distinct = len(seen)
     res.sample({"schema": raw, "variants": len(seen)})
     return res
@@ -309,6 +344,12 @@ def replay(case):
     import fastavro.schema  # noqa
 
     res = UnitResult()
+    if "variant" in case and case["variant"] is None:
+        i = [k for k, s in enumerate(schema_list("quick")) if isinstance(s, dict) and s.get("name") and case["schema"]["fields"][0]["type"].get("name") == s.get("name")]
+        out = []
+        for k in i[:3]:
+            out += [v for v in run_unit(k, "quick").violations if "embedded" in v["sig"]]
+        return out
     if "variant" in case:
         want = canon.canonical(names.resolve(case["schema"]))
         check_one(fa, res, case["schema"], case["variant"], case["rewrite"], want, set())
